@@ -96,7 +96,9 @@ impl Sweep<'_> {
                 let mut outcome = 0u8;
                 // Miri / valgrind: a deterministic sixth of the triples, and no huge sizes
                 let small = self.ctx.small;
-                let pick = !small || hash_str(&format!("{}|{}|{}|{}", variant, inst, mname, class)) % 6 == 0;
+                // (Miri needs about 2 s per triple: one in 24 there, one in 6 under valgrind)
+                let modulo = if self.ctx.build == "MIRI" { 24 } else { 6 };
+                let pick = !small || hash_str(&format!("{}|{}|{}|{}", variant, inst, mname, class)) % modulo == 0;
                 let heavy = small && (inst.contains("5000") || inst.contains("n1000") || inst.contains("1000"));
                 self.ctx.case_if(pick && !heavy, variant, &format!("{}/{}", inst, class), mname, |c| {
                     let (mut t, l, cnt, u) = make(c.rng());
